@@ -57,6 +57,25 @@ pub(crate) struct SqPackHeader {
     sha1_hash: [u8; 20],
 }
 
+/// Reads `length` bytes without allocating them first: the length comes from a block header, and a damaged one has to
+/// fail at the end of the file instead of reserving whatever it says.
+fn read_bytes<T: Read>(buf: &mut T, length: usize) -> Option<Vec<u8>> {
+    let mut data = Vec::new();
+    buf.take(length as u64).read_to_end(&mut data).ok()?;
+
+    (data.len() == length).then_some(data)
+}
+
+/// A buffer for the inflated form of `compressed_length` bytes. Deflate cannot expand its input more than 1032 times,
+/// so a larger claim is damage and is not allocated.
+fn inflate_buffer(compressed_length: usize, decompressed_length: usize) -> Option<Vec<u8>> {
+    if decompressed_length > compressed_length.saturating_mul(1032).saturating_add(1032) {
+        return None;
+    }
+
+    Some(vec![0; decompressed_length])
+}
+
 pub(crate) fn read_data_block<T: Read + Seek>(
     mut buf: T,
     starting_position: u64,
@@ -71,11 +90,12 @@ pub(crate) fn read_data_block<T: Read + Seek>(
             decompressed_length,
         } => {
             // negative lengths are damage, not sizes
-            let mut compressed_data: Vec<u8> = vec![0; usize::try_from(compressed_length).ok()?];
-            buf.read_exact(&mut compressed_data).ok()?;
+            let mut compressed_data = read_bytes(&mut buf, usize::try_from(compressed_length).ok()?)?;
 
-            let mut decompressed_data: Vec<u8> =
-                vec![0; usize::try_from(decompressed_length).ok()?];
+            let mut decompressed_data = inflate_buffer(
+                compressed_data.len(),
+                usize::try_from(decompressed_length).ok()?,
+            )?;
             if !no_header_decompress(&mut compressed_data, &mut decompressed_data) {
                 return None;
             }
@@ -83,10 +103,7 @@ pub(crate) fn read_data_block<T: Read + Seek>(
             Some(decompressed_data)
         }
         CompressionMode::Uncompressed { file_size } => {
-            let mut local_data: Vec<u8> = vec![0; usize::try_from(file_size).ok()?];
-            buf.read_exact(&mut local_data).ok()?;
-
-            Some(local_data)
+            read_bytes(&mut buf, usize::try_from(file_size).ok()?)
         }
     }
 }
@@ -100,13 +117,16 @@ pub(crate) fn read_data_block_patch<T: Read + Seek>(mut buf: T) -> Option<Vec<u8
             compressed_length,
             decompressed_length,
         } => {
-            let compressed_length: usize = ((compressed_length as usize + 143) & 0xFFFFFF80)
+            let compressed_length: usize = ((usize::try_from(compressed_length).ok()? + 143)
+                & 0xFFFFFF80)
                 .checked_sub(block_header.size as usize)?;
 
-            let mut compressed_data: Vec<u8> = vec![0; compressed_length];
-            buf.read_exact(&mut compressed_data).ok()?;
+            let mut compressed_data = read_bytes(&mut buf, compressed_length)?;
 
-            let mut decompressed_data: Vec<u8> = vec![0; decompressed_length as usize];
+            let mut decompressed_data = inflate_buffer(
+                compressed_data.len(),
+                usize::try_from(decompressed_length).ok()?,
+            )?;
             if !no_header_decompress(&mut compressed_data, &mut decompressed_data) {
                 return None;
             }
@@ -114,15 +134,16 @@ pub(crate) fn read_data_block_patch<T: Read + Seek>(mut buf: T) -> Option<Vec<u8
             Some(decompressed_data)
         }
         CompressionMode::Uncompressed { file_size } => {
-            let new_file_size: usize = (file_size as usize + 143) & 0xFFFFFF80;
+            // negative sizes are damage, not sizes
+            let file_size = usize::try_from(file_size).ok()?;
+            let new_file_size: usize = (file_size + 143) & 0xFFFFFF80;
 
-            let mut local_data: Vec<u8> = vec![0; file_size as usize];
-            buf.read_exact(&mut local_data).ok()?;
+            let local_data = read_bytes(&mut buf, file_size)?;
 
             buf.seek(SeekFrom::Current(
                 new_file_size
                     .checked_sub(block_header.size as usize)?
-                    .checked_sub(file_size as usize)? as i64,
+                    .checked_sub(file_size)? as i64,
             ))
             .ok()?;
 
